@@ -207,6 +207,32 @@ func TestVerifC03_Order(t *testing.T) {
 	vRun(t, "C03", vOpts{CurFile: true, ReplayReps: 25}, func(rt *rapid.T) e4Case {
 		c := e4GenCase(rt, e4OptsC03)
 		c.Cfg.DirectQoS0 = false // the property speaks of the default (queued) publishing mode
+		if rapid.IntRange(0, 14).Draw(rt, "burst") == 0 {
+			// a burst: a few requests are carried out, then 64..130 more are submitted while the link is down (far more
+			// than any fixed-size queue holds), then the broker is reachable again
+			steps := []e4Step{{Kind: "connect"}}
+			nPre := rapid.IntRange(1, 20).Draw(rt, "burstPre")
+			for i := 0; i < nPre; i++ {
+				steps = append(steps, e4Step{Kind: "pub", QoS: rapid.IntRange(0, 2).Draw(rt, "bq"), Topic: "t/a"})
+			}
+			steps = append(steps, e4Step{Kind: "settle"}, e4Step{Kind: "holdDial"}, e4Step{Kind: "cutNow"})
+			nb := rapid.IntRange(64, 130).Draw(rt, "burstN")
+			for i := 0; i < nb; i++ {
+				steps = append(steps, e4Step{Kind: "pub", QoS: rapid.SampledFrom([]int{1, 1, 1, 2}).Draw(rt, "bq2"), Topic: "t/b"})
+			}
+			steps = append(steps, e4Step{Kind: "releaseDial"})
+			n := 0
+			for i := range steps {
+				if steps[i].Kind == "pub" {
+					n++
+					steps[i].Idx = n
+				}
+			}
+			c.Steps = steps
+			if len(c.Faults) > 2 {
+				c.Faults = c.Faults[:2]
+			}
+		}
 		return c
 	},
 		func(tb rapid.TB, c e4Case) {
